@@ -25,6 +25,8 @@ def evaluate(name):
         try:
             for c in man["checks"]:
                 cid = c["property_id"]
+                if os.environ.get("ONLY_CHECKS") and cid not in os.environ["ONLY_CHECKS"].split(","):
+                    continue
                 evd = tempfile.mkdtemp()
                 p = subprocess.run(c["quick_cmd"], shell=True, cwd=V, env=dict(os.environ, VERIF_EVIDENCE_DIR=evd, VERIF_REPO=scratch), stdout=subprocess.PIPE, text=True)
                 if p.returncode != 0:
@@ -38,6 +40,11 @@ def evaluate(name):
         if "checks_that_report_it_first_run" not in meta:
             meta["checks_that_report_it_first_run"] = meta.get("checks_that_report_it", {})
             meta["reported_by_claimed_check_first_run"] = meta.get("reported_by_claimed_check", False)
+        if os.environ.get("ONLY_CHECKS"):
+            only_c = os.environ["ONLY_CHECKS"].split(",")
+            merged = {k: v for k, v in meta.get("checks_that_report_it", {}).items() if k not in only_c}
+            merged.update(fired)
+            fired = dict(sorted(merged.items()))
         meta["checks_that_report_it"] = fired
         meta["reported_by_claimed_check"] = meta["property"] in fired
         json.dump(meta, open(mp, "w"), indent=1)
